@@ -199,3 +199,19 @@ def global_names(model, func):
     import builtins
     keep |= set(dir(builtins))
     return keep
+
+
+def expand_locals(f, e, depth=0):
+    """Copy of expression `e` in which every local name of `f` that is bound exactly once, by a plain assignment, is
+    replaced by the assigned expression (recursively): two sides that go through differently named - or equally named -
+    temporaries compare by what they compute."""
+    import copy
+
+    class X(ast.NodeTransformer):
+        def visit_Name(self, n):
+            if isinstance(n.ctx, ast.Load) and depth < 4 and n.id not in f.params:
+                bs = f.bindings.get(n.id, [])
+                if len(bs) == 1 and bs[0][0] == "assign" and not bs[0][2] and isinstance(bs[0][1], ast.expr):
+                    return expand_locals(f, bs[0][1], depth + 1)
+            return n
+    return X().visit(copy.deepcopy(e))
